@@ -2,6 +2,7 @@
   ValidaProofs.Lemmas.Filter — one loop iteration of `Condition._filter`, the loop, the entry points.
 -/
 import ValidaProofs.Lemmas.CallSafe
+import ValidaProofs.Lemmas.DataGuard
 import ValidaSpec.Meaning
 namespace ValidaProofs
 open Valida ValidaGen ValidaGen.Callables
@@ -232,10 +233,10 @@ theorem filterData_leaf_error (l : Leaf PyVal) (d : DataV) (e : Exc)
     · cases h
 
 theorem ofPy_error (doc : PyVal) (e : Exc) (h : DataV.ofPy doc = .error e) : e = .typeError := by
-  unfold DataV.ofPy at h
-  repeat' split at h
-  all_goals cases h
-  all_goals rfl
+  cases doc with
+  | list xs => rw [DataV.ofPy_list] at h; split at h <;> cases h; rfl
+  | dict kvs => rw [DataV.ofPy_dict] at h; split at h <;> cases h; rfl
+  | _ => cases h; rfl
 
 theorem filterPy_leaf_error (l : Leaf PyVal) (doc : PyVal) (e : Exc)
     (h : filterPy (Cond.lit (.leaf l)) doc = .error e) : e = .typeError ∨ e = .unmodelled := by
